@@ -42,7 +42,7 @@ class ForeignGen:
 
     def name(self, prefixes, default):
         r = self.r
-        loc = r.choice(["e1", "e2", "a1", "ag1", "x", "y.z", "b/c", "n-1", "run:4", "rep:v"]) + str(r.randint(0, 3))
+        loc = r.choice(["e1", "e2", "a1", "ag1", "x", "y.z", "b/c", "n-1", "run:4", "rep:v", "rep%20v"]) + str(r.randint(0, 3))
         if default and r.random() < 0.2:
             return loc
         if r.random() < 0.04:
